@@ -18,6 +18,8 @@ CLAIMED = {
         "Exploration: the same generated history is fed to two instances (independently seeded hash maps; one replica is committed+restarted at generated boundaries); every response and periodic full observations must be identical incl. array order. A frozen corpus of 48 generated histories is compared call by call with digests pinned for this PROTOCOL_VERSION/DB_VERSION (catches consensus-affecting constant changes).", "3/C02"),
     "C03": C("metamorphic property-based testing over commit schedules; differential against a fresh replay for lossy steps",
         "Exploration: (schedule) one generated history with no commit vs the same with commits (+clearCaches / stop-reopen right after) at generated boundaries: all responses and periodic observations identical. (lossy) histories with clearCaches (also mid-block) and restarts without commit: right after each lossy step and at the end the instance equals a fresh instance fed only the durable chain.", "3/C03"),
+    "C04": C("fault injection enumerated over every persistent write site of generated histories (failpoints) with a differential oracle against fresh replays",
+        "Fault enumeration: for each generated history every RocksDB put/delete/flush passed by every commit, reorg and finalise is used once as the crash point (sentinel panic in front of the write, instance dropped, directory reopened). Crash outside commit/reorg => equals a fresh replay of the durable chain; crash inside => reorg to the newest and one more durable height in the window is accepted and equals a fresh replay (also after extension). Exhaustive over the write sites of the generated histories; histories themselves are sampled.", "3/C04", category="fault_enumeration"),
     "C05": C("property-based fault injection into generated histories: out-of-protocol / malformed calls; before/after observation equality + twin without the rejected calls",
         "Exploration: 1-6 out-of-protocol or malformed indexer calls (18 kinds) injected at generated positions incl. mid-block: must-reject kinds must error, every rejected call must leave the full observation unchanged, and the rest of the history must answer exactly like a twin that never saw them.", "3/C05"),
     "C06": C("property-based testing with invariant oracle: chain coherence recomputed by independent code (own bloom, merkle, sums, RLP decode) over generated histories",
@@ -26,8 +28,14 @@ CLAIMED = {
         "Exploration: random interleavings of bridge calls, controller/token-level ERC20 calls by pkscripts, signers and a contract, adversarial owner-only calls, several ticker spellings and extreme amounts, across mining/commits/reorgs; balances, supply conservation and deposit/withdraw outcomes are compared with an independent ledger.", "3/C07"),
     "C08": C("model-based testing: reference pending-pool model; bounded-exhaustive arrival orders (small scope) + random sequences",
         "Exhaustive over a small scope (every arrival sequence of up to 3-4 signed transactions of one signer over nonces 0..3 x block-gap patterns {0,1,9,10,11}) and random sequences (3 signers, reorgs, clears, garbage, wrong chain): returned receipts, indexes, txpool_content(+From), account nonces and on-chain nonce order are compared with a reference pool model after every call.", "3/C08"),
+    "C09": C("property-based robustness testing: generated request sequences with ill-typed mutations + liveness probes, generated/garbage EVM payloads and helper-contract inputs, direct calls of decoders and precompile functions",
+        "Exploration: no panic (the shipped binary aborts), no wedged engine (read + write probes after requests), no loop beyond its bound (brc20_mine watched by work from a second thread) over any registered method x junk parameters in 4 engine states, random/generated code and call data, ABI-valid/invalid helper calls incl. Bitcoin helpers with closed override graphs, and direct calls of the pure functions with gas limits around each charge.", "3/C09"),
     "C10": C("metamorphic property-based testing: generated read requests inserted into a generated history; before/after observation equality, read-free twin, raw RocksDB dump comparison",
         "Exploration: eth_call / eth_callMany (chained, with overrides) / eth_estimateGas(Many) / brc20_balance with state-mutating generated code and the whole query surface (also mid-block) are inserted at generated positions; the observation before == after every read, all indexer responses, the final observation and the raw contents of every store after commit equal the read-free twin.", "3/C10"),
+    "C11": C("schedule-controlled concurrency testing: enumerated (request A, request B, preemption point k) schedules owned through a lock-recorder hook; structural wait-for-cycle oracle",
+        "Bounded-exhaustive over schedules with two threads and one preemption: every registered method A x 8 B requests x 2 engine states x every lock acquisition k of A (A paused before it, B runs until done or blocked, A resumed). A deadlock is a wait-for cycle in the recorded lock state under std RwLock's writer-preferring semantics, independent of timing. Three-thread or two-preemption deadlocks are out of reach.", "3/C11"),
+    "C12": C("exhaustive matrix over a real HTTP server (public start()): method x request form x credentials x auth on/off, with behaviourally derived protected set and state-digest oracle",
+        "Exhaustive over the stated matrix: every registered method as call / notification / batch element at every position of batches of 2-4 mixed with permitted calls, 7 credential kinds, auth enabled and disabled, at a boundary and mid-block: protected methods (declared list union behaviourally mutating) answer 401 and leave the public state digest (and durability) unchanged, permitted entries are answered, valid credentials admit everything.", "3/C12"),
     "C13": C("model-based testing of the storage components: bounded-exhaustive BFS over one history + random op sequences on real tables vs an in-memory versioned map",
         "Bounded-exhaustive: all op sequences up to length 8 (quick) / 11 (thorough) over {set a, set b, unset, advance 1/9/10/11, rollback 0..11} on one BlockHistoryCacheData, from 5 start states, states merged; plus random sequences on real BlockCachedDatabase tables (two key types) and a BlockDatabase on tmpfs with commit/discard/reopen/rollback/range scans against a durable+volatile model; persisted rows are read back for the 11-version bound.", "3/C13"),
     "C14": C("property-based round-trip / algebraic-law testing of the codecs (encode-decode, concatenation, key order, JSON stability)",
@@ -42,6 +50,8 @@ CLAIMED = {
         "Exploration: histories with 0-4-topic logs (committed and uncommitted, reverted emissions, reorgs) x generated filters (all range forms, address, positional topics with wildcard/value/alternatives); result compared as an ordered list with a reference filter; too-wide ranges must be refused.", "3/C18"),
     "C19": C("property-based testing with a probe contract: every context opcode and the txid helper recorded in storage and compared with what the harness supplied, on two network configurations",
         "Exploration: generated histories (inscription, signed, parked-then-drained calls, deploy constructors, explicit and server-generated hashes, 250+ mined blocks, commits, reorgs) on regtest (Prague everywhere) and signet (Cancun at low heights, in separately configured worker processes).", "3/C19"),
+    "C20": C("exhaustive configuration matrix through the public start() in child processes; tampering with the recorded configuration rows",
+        "Exhaustive over 196 (creating, reopening) configuration pairs (7 network spellings x traces on/off) on a populated committed directory plus 14 directory kinds (rows deleted/altered/lowered, configuration store removed, foreign directory, fresh directory): identical configuration starts and serves the recorded observation, every mismatch fails to start and leaves the logical contents of all stores unchanged.", "3/C20"),
 }
 
 NOT_YET = {}
